@@ -346,3 +346,26 @@ CHECKS["C08"] = {
         {"name": "random", "run": "^TestC08Random$", "kind": "rapid", "checks": {"quick": 4000, "thorough": 100000}, "shards": {"quick": 4, "thorough": 16}},
     ],
 }
+
+CHECKS["C09"] = {
+    "pkg": "props/c09",
+    "level": "exploration",
+    "rule": "context: a random program of 1..12 calls over the exported method sets of RequestContext, Request, RequestHeader, Response, ResponseHeader, URI, query/post Args and both Trailers (every method whose parameters can be synthesised from string/[]byte/int/bool/time/io.Reader/error/interface/map/CookieSameSite/*Cookie/context, ~370 methods enumerated by reflection, minus a deny-list of methods that end the experiment) plus direct assignments to exported fields, "
+            "run while serving one of 4 dirty requests (form POST, HEAD, chunked multipart PUT with trailer, JSON POST with Expect) and ending in return / Abort / AbortWithStatus / panic caught by the recovery middleware / SetConnectionClose; then one of 3 probe requests (matched route, unmatched route with form body, multipart) on the same keep-alive connection or on a new connection (context from the pool). "
+            "pooled-objects: Acquire -> random calls -> Release -> Acquire for Request, Response, URI, Cookie. Non-trivial = the program changed the dump during the dirty request AND the probe got the pointer-identical context/object; distinct by FNV-64 of the case. concurrent: 8 goroutines interleave dirty and probe connections on one engine (race detector in the thorough tier).",
+    "assumptions": [
+        "the dump is every exported zero-argument getter of those objects (enumerated by reflection, canonically rendered, Date masked) plus VisitAll enumerations, Params, Keys, Errors, exported flags, cookie/form/query/multipart lookups, and the probe's serialised response",
+        "connection-scoped state documented to survive (conn, TLS flag, trace info object, binder/validator, client-IP and form-value functions, HTMLRender, maxKeepBodySize) is excluded; slice capacities are not observable and not compared",
+        "a probe that is not dispatched is accepted only when the dirty exchange demonstrably ended the connection",
+    ],
+    "level_text": "Random differential exploration: the full observable state a probe request sees on a recycled context (same connection or from the pool) must equal what the identical probe sees on a brand-new engine with a brand-new context; mutators and getters are enumerated by reflection so new setters/getters are covered without editing the harness.",
+    "level_note": "Sampling over a very large program space; trusts the reflection-based dump to expose the state that matters (cross-checked by deleting reset lines one at a time).",
+    "technique": "model-free differential property-based testing (rapid): reflection-enumerated mutator programs, state dump of recycled vs fresh object",
+    "nontrivial_floor": 500,
+    "units": [
+        {"name": "context", "run": "^TestC09Context$", "kind": "rapid", "checks": {"quick": 4000, "thorough": 160000}, "shards": {"quick": 8, "thorough": 16}},
+        {"name": "pooled-objects", "run": "^TestC09Pooled$", "kind": "rapid", "checks": {"quick": 4000, "thorough": 160000}, "shards": {"quick": 4, "thorough": 16}},
+        {"name": "concurrent", "run": "^TestC09Concurrent$", "kind": "rapid", "checks": {"quick": 40, "thorough": 400}, "shards": {"quick": 2, "thorough": 4}},
+        {"name": "concurrent-race", "run": "^TestC09Concurrent$", "kind": "rapid", "race": True, "tiers": ["thorough"], "checks": {"thorough": 200}, "shards": {"thorough": 8}},
+    ],
+}
